@@ -313,6 +313,23 @@ tp gen_tp(Rng& r, int64_t distinct)
     return tp{std::chrono::seconds{s}};
 }
 
+// Pad extra_data so that the uncompressed payload is exactly a multiple of the codec's 16 KiB chunk (or one byte
+// either side): the boundary of the chunked deflate / inflate loops.
+void pad_to(std::vector<std::byte>& extra, size_t payload_without_extra, Rng& r)
+{
+    size_t k = 1 + r.below(3);
+    long d = r.chance(1, 2) ? 0 : (long)r.below(3) - 1;
+    long target = (long)(16384 * k) + d;
+    long cur = (long)payload_without_extra;
+    if (cur > target)
+        target = (long)(16384 * ((cur + 16383) / 16384)) + d;
+    if (target < cur)
+        target += 16384;
+    extra.assign((size_t)(target - cur), std::byte{0x5c});
+    for (size_t i = 0; i < extra.size(); i += 7)
+        extra[i] = (std::byte)r.below(256);
+}
+
 v2::track_row gen_row(uint64_t seed, int size, uint64_t uniq, bool hostile_blobs)
 {
     Rng r(seed ^ 0x7AB1Eull);
@@ -378,6 +395,31 @@ v2::track_row gen_row(uint64_t seed, int size, uint64_t uniq, bool hostile_blobs
     w.beat_data = gen_beat(r, size, nf);
     w.quick_cues = gen_cues(r, size, nf, hostile_blobs);
     w.loops = gen_loops_blob(r, size, nf, hostile_blobs);
+    if (size >= 2 && r.chance(1, 4))
+    {
+        // chunk-boundary payloads
+        switch (r.below(4))
+        {
+            case 0: pad_to(w.track_data.extra_data, 44, r); break;
+            case 1: pad_to(w.overview_waveform_data.extra_data, 27 + 3 * w.overview_waveform_data.waveform_points.size(), r); break;
+            case 2:
+                pad_to(w.beat_data.extra_data, 33 + 24 * (w.beat_data.default_beat_grid.size() + w.beat_data.adjusted_beat_grid.size()), r);
+                break;
+            default:
+            {
+                size_t n = 8 + 17;
+                for (auto& c : w.quick_cues.quick_cues)
+                    n += 13 + std::min<size_t>(c.label.size(), 255);
+                bool ok = true;
+                for (auto& c : w.quick_cues.quick_cues)
+                    if (c.label.size() > 255)
+                        ok = false;
+                if (ok)
+                    pad_to(w.quick_cues.extra_data, n, r);
+                break;
+            }
+        }
+    }
     w.third_party_source_id = gen_col_int(r, 12);
     w.streaming_flags = 13000 + (int64_t)r.below(1000);
     w.explicit_lyrics = r.chance(1, 2);
